@@ -12,6 +12,8 @@ import (
 
 	"github.com/dave/dst"
 	"github.com/dave/dst/decorator"
+	"github.com/dave/dst/decorator/resolver/goast"
+	"github.com/dave/dst/decorator/resolver/guess"
 
 	"verif/core"
 	"verif/gen"
@@ -25,7 +27,7 @@ func init() {
 		Level: "model_checking",
 		Rule: "choice-tree exploration: every corpus template x every assignment of <=k letters of {/*c*/, // c, newline, blank line, multi-line /*c*/} to its inter-token gaps, " +
 			"canonicalised with gofmt and deduplicated (state = canonical text); each distinct canonical file is pushed through Parse/Fprint, explicit Decorator+Restorer on a shared populated FileSet (also: one Restorer restoring two files before either is printed; a Restorer with Extras; the Decorate/DecorateFile/RestoreFile helpers and a named FileRestorer), " +
-			"ParseFile with 3 parser modes and (k<=1) ParseDir; plus one big file made of the declarations of all import-free templates (thorough: with every single comment insertion); in the quick tier files with two insertions go through the three principal entry points only (Parse+Fprint, shared FileSet, one Restorer for two files); non-trivial = canonical file with at least one insertion",
+			"ParseFile with 3 parser modes, (files with imports) import management with the goast and guess resolvers, and (k<=1) ParseDir; plus one big file made of the declarations of all import-free templates (thorough: with every single comment insertion); in the quick tier files with two insertions go through the three principal entry points only (Parse+Fprint, shared FileSet, one Restorer for two files); non-trivial = canonical file with at least one insertion",
 		Assumptions: []string{"go/format of this toolchain defines 'gofmt canonical'", "comment texts range over the alphabet only", "templates are the committed corpus"},
 		Units: func(tier string) []string {
 			return append(gapUnits(gen.Templates(), c01Shards), "big-file#0/4", "big-file#1/4", "big-file#2/4", "big-file#3/4")
@@ -127,6 +129,21 @@ func checkC01(src string, withDir, full bool) core.Outcome {
 			err = format.Node(&buf, fset, rf)
 			return buf.String(), err
 		}},
+	}
+	if strings.Contains(src, "\nimport ") && !strings.Contains(src, "\"C\"") {
+		// files with imports also go through import management (qualified identifiers collapse to path-carrying
+		// identifiers and expand back): an unedited canonical file must come out byte for byte there as well
+		principal["import management (goast + guess)"] = true
+		eps = append(eps, ep{"import management (goast + guess)", func() (string, error) {
+			d := decorator.NewDecoratorWithImports(token.NewFileSet(), "example.com/local", goast.New())
+			df, err := d.Parse(src)
+			if err != nil {
+				return "", err
+			}
+			var buf bytes.Buffer
+			err = decorator.NewRestorerWithImports("example.com/local", guess.New()).Fprint(&buf, df)
+			return buf.String(), err
+		}})
 	}
 	eps = append(eps, ep{"helpers Decorate + RestoreFile", func() (string, error) {
 		fset := token.NewFileSet()
